@@ -260,7 +260,22 @@ impl<'a> VisitMut for Marker<'a> {
                 let cond = norm(&ife.cond.to_token_stream().to_string());
                 for (c, t) in self.spec.before_if.clone() { if c == cond { let mk = self.marker(&t, vec![], "before-if"); out.push(mk); } }
                 for (c, t) in self.spec.then_start.clone() { if c == cond { let mk = self.marker(&t, vec![], "then-start"); ife.then_branch.stmts.insert(0, mk); } }
+                for (c, t) in self.spec.else_start.clone() { if c == cond { if let Some((_, el)) = &mut ife.else_branch { if let Expr::Block(eb) = &mut **el { let mk = self.marker(&t, vec![], "else-start"); eb.block.stmts.insert(0, mk); } } } }
             }
+            // arm-start anchors on `match` statements (also `let x = match ..`)
+            {
+                let top: Option<&mut Expr> = match &mut st { Stmt::Expr(e, _) => Some(e), Stmt::Local(l) => l.init.as_mut().map(|i| &mut *i.expr), _ => None };
+                if let Some(Expr::Match(mm)) = top {
+                    for arm in mm.arms.iter_mut() {
+                        let pt = norm(&arm.pat.to_token_stream().to_string());
+                        for (c, t) in self.spec.arm_start.clone() { if c == pt {
+                            let mk = self.marker(&t, vec![], "arm-start");
+                            if let Expr::Block(ab) = &mut *arm.body { ab.block.stmts.insert(0, mk); } else { let body = (*arm.body).clone(); *arm.body = parse_quote!({ #mk #body }); }
+                        } }
+                    }
+                }
+            }
+            if let Stmt::Expr(Expr::Continue(_), _) = &st { if !self.spec.before_continue.trim().is_empty() { let t = self.spec.before_continue.clone(); let mk = self.marker(&t, vec![], "before-continue"); out.push(mk); } }
             let mut f = Finder { pats: &self.spec.before_call, found: vec![] };
             syn::visit::Visit::visit_stmt(&mut f, &st);
             let found_b = f.found;
